@@ -262,6 +262,227 @@ def check_combine_two(rep, prog, m, c2, rel):
            what='shape, labels and extrap_x')
 
 
+def check_misc_combine(rep, prog):
+    """Misc.combine_pops by what it accumulates (abstract execution for 2 and 3 populations and every pair): entry [i + j (, k)] of the
+    result receives entry (i, j (, k)) of the data with i, j on the axes of the pair and k on the remaining axis, every index over the
+    whole extent of its axis, the result of shape (extent_a + extent_b - 1 (, extent_rest)) wrapped in a Spectrum.  Transpositions of
+    the data, helper functions and numpy.ndindex over trailing axes are followed; the flipped-trace idiom for anti-diagonal sums is
+    understood.  Returns False when the function is not of a form this follows (the syntactic rule below then applies)."""
+    from sa import miniexec as mx
+    from sa import alpha as _alpha
+    from sa.algebra import Rat, AlgebraError
+    mm = prog.mod('dadi.Misc')
+    mc = prog.func('dadi.Misc', 'combine_pops')
+    known = _alpha.load_table().get('__params__', {}).get(mm.rel)
+    known = set(known) if known is not None else None
+    E = lambda k: Rat.atom('n%d' % k) + Rat.const(1)
+    results = []
+    try:
+        for D, pairs in ((2, ([0, 1],)), (3, ([0, 1], [0, 2], [1, 2]))):
+            for pair in pairs:
+                nd_ranges = {}
+                A = mx.Sym('A', attrs={'shape': tuple(mx.Sym('E%d' % k) for k in range(D)), 'ndim': D})
+
+                def shape_of(v):
+                    if isinstance(v, mx.Sym) and 'shape' in v.attrs:
+                        return v.attrs['shape']
+                    rec = mx.method_call(v, 'transpose')
+                    if rec is not None:
+                        sh = shape_of(rec)
+                        perm = v.struct[2]
+                        perm = perm[0] if len(perm) == 1 and isinstance(perm[0], (tuple, list)) else perm
+                        if sh is None or not all(isinstance(x, int) for x in perm) or sorted(perm) != list(range(len(sh))):
+                            return None
+                        return tuple(sh[x] for x in perm)
+                    c = mx.call_of(v, 'transpose')
+                    if c is not None and v.struct[1].split('.')[0] in ('numpy', 'np') and len(c[0]) == 2:
+                        sh = shape_of(c[0][0])
+                        perm = c[0][1]
+                        if sh is None or not isinstance(perm, (tuple, list)) or sorted(perm) != list(range(len(sh))):
+                            return None
+                        return tuple(sh[x] for x in perm)
+                    if isinstance(v, mx.Sym) and v.struct and v.struct[0] == 'index':
+                        key = v.struct[2] if isinstance(v.struct[2], tuple) else (v.struct[2],)
+                        if all(isinstance(k_, slice) and k_.start is None and k_.stop is None for k_ in key):
+                            return shape_of(v.struct[1])
+                    return None
+
+                def attr_hook(base, attr):
+                    if attr == 'shape':
+                        sh = shape_of(base)
+                        if sh is not None:
+                            return sh
+                    if attr == 'ndim':
+                        sh = shape_of(base)
+                        if sh is not None:
+                            return len(sh)
+                    return NotImplemented
+
+                def call_hook(nm, args, kwargs):
+                    last = nm.split('.')[-1]
+                    if last in ('array', 'asarray', 'asanyarray') and nm.split('.')[0] in ('numpy', 'np') and len(args) == 1 and mx.show(args[0]) == 'fs':
+                        return A
+                    if last == 'ndindex' and nm.split('.')[0] in ('numpy', 'np'):
+                        ext = args[0] if len(args) == 1 and isinstance(args[0], (tuple, list)) else args
+                        vs = tuple(mx.Sym('nd%d_%d' % (len(nd_ranges), k_)) for k_ in range(len(ext)))
+                        for v_, e_ in zip(vs, ext):
+                            nd_ranges[v_.text] = e_
+                        return [vs]
+                    return NotImplemented
+                it = mx.Interp(prog, mm, known_functions=known, symbolic_loops=True, attr_hook=attr_hook, call_hook=call_hook)
+                fs = mx.Sym('fs', attrs={'sample_sizes': tuple(mx.Sym('n%d' % k) for k in range(D)), 'extrap_x': mx.Sym('fs.extrap_x'), 'ndim': D, 'Npop': D})
+                paths = [p for p in it.run(mc, {'fs': fs, 'idx': list(pair)}) if p[0][0] == 'return']
+                results.append((D, pair, paths, nd_ranges, A))
+    except mx.Undecidable:
+        return False
+    def leaf(x):
+        if isinstance(x, mx.Sym) and not x.struct:
+            mE = re.fullmatch(r'E(\d)', x.text)
+            if mE:
+                return E(int(mE.group(1)))
+            if re.fullmatch(r'[A-Za-z_]\w*', x.text):
+                return Rat.atom(x.text)
+        return None
+
+    def resolve_source(v, A):
+        """(index per axis of the data array) for an element read from the data array through transpositions, else None"""
+        if not (isinstance(v, mx.Sym) and v.struct and v.struct[0] == 'index'):
+            return None
+        base, key = v.struct[1], v.struct[2]
+        key = list(key) if isinstance(key, tuple) else [key]
+        while base is not A:
+            rec = mx.method_call(base, 'transpose')
+            perm = None
+            if rec is not None:
+                perm = base.struct[2]
+                perm = perm[0] if len(perm) == 1 and isinstance(perm[0], (tuple, list)) else perm
+            else:
+                c = mx.call_of(base, 'transpose')
+                if c is not None and len(c[0]) == 2:
+                    rec, perm = c[0][0], c[0][1]
+            if rec is None or perm is None or len(perm) != len(key):
+                return None
+            new = [None] * len(key)
+            for pos, ax in enumerate(perm):
+                new[ax] = key[pos]
+            base, key = rec, new
+        return key
+    n_ok = 0
+    verdicts = []
+    for D, pair, paths, nd_ranges, A in results:
+        tag = '%dD idx %s' % (D, pair)
+        rest = [a for a in range(D) if a not in pair]
+        bad = []
+        if len(paths) != 1:
+            bad.append('%d returning paths' % len(paths))
+        for outcome, events, _dec in paths:
+            ret = outcome[1]
+            sp = mx.call_of(ret, 'Spectrum')
+            if sp is None or not sp[0]:
+                bad.append('returns %s' % mx.show(ret)[:40])
+                continue
+            res = sp[0][0]
+            sets = {e[2]: mx.show(e[3]) for e in events if e[0] == 'setattr' and e[1] == mx.show(ret)}
+            if sets.get('extrap_x') != 'fs.extrap_x':
+                bad.append('extrap_x not carried over')
+            ranges = {e[2]: e[3] for e in events if e[0] == 'loop' and len(e) > 3}
+            try:
+                def extent_of(var):
+                    """extent the loop variable runs over (from 0), as Rat"""
+                    if var in nd_ranges:
+                        return mx.to_rat(nd_ranges[var], leaf)
+                    itv = ranges.get(var)
+                    c = mx.call_of(itv, 'range') if itv is not None else None
+                    if c is None or len(c[0]) != 1:
+                        raise AlgebraError('loop over %s' % (mx.show(itv) if itv is not None else '?'))
+                    return mx.to_rat(c[0][0], leaf)
+                zc = mx.call_of(res, 'zeros')
+                acc = [e for e in events if e[0] == 'augitem' and mx.show(e[1]) == mx.show(res)]
+                over = [e for e in events if e[0] == 'setitem' and mx.show(e[4]) == mx.show(res)]
+                if zc is not None and over:
+                    bad.append('the result is overwritten, not accumulated into: %s[%s] = ...' % (mx.show(res)[:20], mx.show(over[0][2])[:30]))
+                elif zc is not None and acc:
+                    shp = zc[0][0] if zc[0] else zc[1].get('shape')
+                    shp = list(shp) if isinstance(shp, (tuple, list)) else [shp]
+                    want_shape = [E(pair[0]) + E(pair[1]) - Rat.const(1)] + [E(r) for r in rest]
+                    got_shape = [mx.to_rat(x, leaf) for x in shp]
+                    if len(got_shape) != len(want_shape) or not all(a_.equals(b_) for a_, b_ in zip(got_shape, want_shape)):
+                        bad.append('result shape (%s)' % ', '.join(x.canon() for x in got_shape))
+                    if len(acc) != 1 or acc[0][3] != 'Add':
+                        bad.append('%d accumulation statements' % len(acc))
+                    for e in acc[:1]:
+                        tkey = list(e[2]) if isinstance(e[2], tuple) else [e[2]]
+                        skey = resolve_source(e[4], A)
+                        if skey is None or len(skey) != D or len(tkey) != 1 + len(rest):
+                            bad.append('accumulates %s' % mx.show(e[4])[:50])
+                            continue
+                        tk = [mx.to_rat(x, leaf) for x in tkey]
+                        sk = [mx.to_rat(x, leaf) for x in skey]
+                        if not tk[0].equals(sk[pair[0]] + sk[pair[1]]):
+                            bad.append('first index of the result is %s, the pair is indexed by %s and %s' % (tk[0].canon(), sk[pair[0]].canon(), sk[pair[1]].canon()))
+                        if rest and not tk[1].equals(sk[rest[0]]):
+                            bad.append('second index of the result is %s, the remaining axis is indexed by %s' % (tk[1].canon(), sk[rest[0]].canon()))
+                        vars_ = []
+                        for ax, r_ in enumerate(sk):
+                            ats = list(r_.atoms())
+                            if len(ats) != 1 or not r_.equals(Rat.atom(ats[0])):
+                                bad.append('axis %d of the data is indexed by %s' % (ax, r_.canon()))
+                                continue
+                            vars_.append(ats[0])
+                            ext = extent_of(ats[0])
+                            if not ext.equals(E(ax)):
+                                bad.append('index %s of axis %d runs over %s entries' % (ats[0], ax, ext.canon()))
+                        if len(set(vars_)) != len(vars_):
+                            bad.append('one loop variable indexes two axes')
+                else:
+                    # anti-diagonal sums by the trace of the flipped array: numpy.array([numpy.trace(X[::-1], offset=o(k)) for k in range(n)])
+                    ar = mx.call_of(res, 'array')
+                    comp = ar[0][0] if ar and ar[0] else None
+                    if not (isinstance(comp, mx.Sym) and comp.struct and comp.struct[0] == 'comp'):
+                        raise mx.Undecidable('result %s' % mx.show(res)[:40])
+                    elt, itv, var = comp.struct[1], comp.struct[2], comp.struct[3]
+                    tc = mx.call_of(elt, 'trace')
+                    rg = mx.call_of(itv, 'range')
+                    if tc is None or rg is None or len(rg[0]) != 1 or len(tc[0]) != 1:
+                        raise mx.Undecidable('comprehension %s' % mx.show(comp)[:40])
+                    X = tc[0][0]
+                    if not (isinstance(X, mx.Sym) and X.struct and X.struct[0] == 'index' and isinstance(X.struct[2], slice) and X.struct[2].start is None and X.struct[2].stop is None and X.struct[2].step == -1):
+                        raise mx.Undecidable('trace of %s' % mx.show(X)[:40])
+                    arr = X.struct[1]
+                    sh = None
+                    # shape of arr: through transpositions of the data array
+                    probe = mx.Sym('probe', struct=('index', arr, tuple(mx.Sym('ax%d' % k) for k in range(D))))
+                    axes = resolve_source(probe, A)
+                    if axes is None:
+                        raise mx.Undecidable('trace over %s' % mx.show(arr)[:40])
+                    order = [int(mx.show(a)[2:]) for a in axes]          # order[data axis] = position in arr
+                    pos_of = {pos: ax for ax, pos in enumerate(order)}
+                    a0, a1 = pos_of[0], pos_of[1]
+                    if sorted((a0, a1)) != sorted(pair):
+                        bad.append('the trace runs over data axes %d and %d' % (a0, a1))
+                    off = tc[1].get('offset', 0)
+                    # flipped rows: element (r, c) of X[::-1] is (E_a0 - 1 - r, c) of arr; on diagonal `off`: c = r + off, so i + j = E_a0 - 1 + off
+                    total = E(a0) - Rat.const(1) + mx.to_rat(off, leaf)
+                    if not total.equals(Rat.atom(var)):
+                        bad.append('entry %s of the result sums the data over i + j = %s' % (var, total.canon()))
+                    if not mx.to_rat(rg[0][0], leaf).equals(E(pair[0]) + E(pair[1]) - Rat.const(1)):
+                        bad.append('result has %s entries along the merged axis' % mx.to_rat(rg[0][0], leaf).canon())
+            except AlgebraError as e:
+                bad.append('not evaluable: %s' % e)
+            except mx.Undecidable as e:
+                bad.append('not recognised: %s' % e)
+        n_ok += 1
+        verdicts.append((tag, rest, bad))
+    if any('not recognised' in b for _, _, bad in verdicts for b in bad):
+        return False         # e.g. delegation to Spectrum.combine_two_pops: the rule below composes that method's summary
+    rep.saw_function(mm.rel + ':combine_pops')
+    generic.rule_name(rep, prog, mm, mc)
+    for tag, rest, bad in verdicts:
+        rep.ob('R-IDX', 'Misc.combine_pops %s' % tag, not bad, '; '.join(bad[:2]) if bad else 'result[i + j%s] accumulates data[%s]; every index over the whole axis; shape (E_a + E_b - 1%s)' % (', k' if rest else '', 'i, j on the pair' + (', k on the rest' if rest else ''), ', E_rest' if rest else ''),
+               mm.rel, mc.lineno, what='each loop variable ranges over the extent of the axis it indexes; merged index is the sum of the pair; the combined population is on the first axis')
+    return True
+
+
 def run(rep, prog, tier):
     m = prog.mod(SM)
     rel = m.rel
@@ -360,6 +581,11 @@ def run(rep, prog, tier):
     rep.ob('R-IDX', 'reorder_pops labels', okl, ast.unparse(lab[0]) if lab else 'labels not set', rel, lab[0].lineno if lab else ro.lineno,
            what='labels gathered with the same newaxes as the data (new label k = old label newaxes[k])')
     # ---- Misc.combine_pops -------------------------------------------------------------------------------------------------------
+    if check_misc_combine(rep, prog):
+        sc = prog.func(SM, 'Spectrum.scramble_pop_ids')
+        check_scramble(rep, sc, rel)
+        rep.floor('R-IDX', 15)
+        return
     mm = prog.mod('dadi.Misc')
     mc = prog.func('dadi.Misc', 'combine_pops')
     rep.saw_function(mm.rel + ':combine_pops')
